@@ -171,6 +171,10 @@ def ite(ex, c, a, b):
     """pure conditional value"""
     if isinstance(c, bool):
         return a if c else b
+    if z3.is_expr(a):
+        a = lift_raw(a)
+    if z3.is_expr(b):
+        b = lift_raw(b)
     ka, kb = num_kind(a), num_kind(b)
     if ka and kb:
         ty = "real" if "real" in (ka, kb) else "int"
@@ -182,8 +186,8 @@ def ite(ex, c, a, b):
     if isinstance(a, EnumV) and isinstance(b, EnumV) and a.cls == b.cls:
         return EnumV(a.cls, ite(ex, c, a.value, b.value))
     if isinstance(a, WellV) and isinstance(b, WellV):
-        return WellV(term(ite(ex, c, a.r, b.r)) if not isinstance(ite(ex, c, a.r, b.r), int) else ite(ex, c, a.r, b.r),
-                     ite(ex, c, a.c, b.c))
+        rr, cc = ite(ex, c, a.r, b.r), ite(ex, c, a.c, b.c)
+        return WellV(rr if isinstance(rr, int) else term(rr, "int"), cc if isinstance(cc, int) else term(cc, "int"))
     if isinstance(a, SeqV) and isinstance(b, SeqV) and a.kind == b.kind == "tuple":
         ia, ib = a.concrete_items(), b.concrete_items()
         if len(ia) == len(ib):
@@ -550,6 +554,10 @@ def lift_raw(v):
 def equals(ex, a, b):
     """Python == for non-array values -> host bool or Sym bool."""
     a, b = lift_raw(a), lift_raw(b)
+    if isinstance(a, CondV):
+        return mk_bool(z3.If(a.c, zbool(unwrap_bool(equals(ex, a.a, b))), zbool(unwrap_bool(equals(ex, a.b, b)))))
+    if isinstance(b, CondV):
+        return mk_bool(z3.If(b.c, zbool(unwrap_bool(equals(ex, a, b.a))), zbool(unwrap_bool(equals(ex, a, b.b)))))
     if type(a).__name__ == "JoinV" or type(b).__name__ == "JoinV":
         if type(a).__name__ == "JoinV" and type(b).__name__ == "JoinV":
             return and_(ex, equals(ex, a.sep, b.sep), seq_equal(ex, a.seq, b.seq))
